@@ -105,6 +105,18 @@ fn respell(rng: &mut StdRng, p: &str, cwd: &[String], home: &str) -> String {
     }
 }
 
+fn chaos_path(rng: &mut StdRng, existing: &[String]) -> String {
+    let odd = ["", "/", "..", "../..", "../../../../..", ".", "//", "/..", "~", "$", "${", "$NOPE/x", "~/~", "file://", "ftp:///a/../..", "\u{e9}", "/\u{65e5}\u{672c}/\u{1d11e}", "/a b", "/a/./../a//b/"];
+    let r = rng.gen_range(0..10);
+    if r < 5 || existing.is_empty() {
+        return odd[rng.gen_range(0..odd.len())].to_string();
+    }
+    // below / beside an existing entry, whatever its kind (through links, below files)
+    let base = &existing[rng.gen_range(0..existing.len())];
+    let tail = ["x", "a", "../a", "a/b", "\u{e9}", ".."][rng.gen_range(0..6)];
+    if base == "/" { format!("/{}", tail) } else { format!("{}/{}", base, tail) }
+}
+
 fn rand_path(rng: &mut StdRng, names: &[&str], maxdepth: usize, existing: &[String]) -> String {
     let r = rng.gen_range(0..10);
     if r < 4 && !existing.is_empty() {
@@ -154,6 +166,7 @@ fn main() {
     let worker = arg_u64("worker", 0);
     let workers = arg_u64("workers", 1);
     let home = std::env::var("HOME").unwrap_or_default();
+    let chaos = flag("chaos");
     let mut out = Out::create(arg_or("out", "/dev/stdout"));
     let prog = Progress::from_env();
     let mut id = 0u64;
@@ -180,10 +193,13 @@ fn main() {
                     if !home.is_empty() {
                         ex_home.push(home.clone());
                     }
-                    let a0 = rand_path(&mut rng, &names, 3, &ex_home);
-                    let b0 = rand_path(&mut rng, &names, 3, &ex_home);
-                    let a = respell(&mut rng, &a0, &cwd, &home);
-                    let b = respell(&mut rng, &b0, &cwd, &home);
+                    let (a, b) = if chaos && rng.gen_bool(0.5) {
+                        (chaos_path(&mut rng, &ex), chaos_path(&mut rng, &ex))
+                    } else {
+                        let a0 = rand_path(&mut rng, &names, 3, &ex_home);
+                        let b0 = rand_path(&mut rng, &names, 3, &ex_home);
+                        (respell(&mut rng, &a0, &cwd, &home), respell(&mut rng, &b0, &cwd, &home))
+                    };
                     let c = match rng.gen_range(0..40) {
                         0 | 1 => call("mkfile", &a, ""),
                         2 | 3 | 4 => call("mkdir_p", &a, ""),
